@@ -425,12 +425,11 @@ struct EGioFile_st {int type; void*file;};
 /* ========================================================================= */
 int EGioWrite(EGioFile_t*file,const char*const string)
 {
-	char buf[EGio_BUFSIZE];
+	/* written as it is: copying through a fixed buffer cut long strings */
+	const char *buf = string;
 	int len;
-	buf[EGio_BUFSIZE-1] = 0;
-	snprintf(buf,EGio_BUFSIZE,"%s",string);
-	len = strlen(buf);
-	if(len<=0 || len >= EGio_BUFSIZE || buf[EGio_BUFSIZE-1]!=0) return 0;
+	len = (int) strlen(buf);
+	if(len<=0) return 0;
 	switch(file->type)
 	{
 		case EGIO_PLAIN:
@@ -444,7 +443,7 @@ int EGioWrite(EGioFile_t*file,const char*const string)
 #endif
 		case EGIO_BZLIB:
 #ifdef HAVE_LIBBZ2
-			return BZ2_bzwrite((BZFILE*)(file->file),buf,len);
+			return BZ2_bzwrite((BZFILE*)(file->file),(void*)buf,len);
 #else
 			QSlog("no bzip2 support");
 			return 0;
@@ -458,12 +457,24 @@ int EGioWrite(EGioFile_t*file,const char*const string)
 int EGioPrintf(EGioFile_t*file,const char* format, ...)
 {
 	char buf[EGio_BUFSIZE];
+	char *big = 0;
+	int n, rval;
 	va_list va;
 	buf[EGio_BUFSIZE-1]=0;
 	va_start(va,format);
-	vsnprintf(buf,EGio_BUFSIZE,format,va);
+	n = vsnprintf(buf,EGio_BUFSIZE,format,va);
 	va_end(va);
-	return EGioWrite(file,buf);
+	if(n < EGio_BUFSIZE) return EGioWrite(file,buf);
+	/* longer than the fixed buffer (a rational with thousands of digits):
+	 * format again into a block of the right size instead of truncating */
+	big = (char*)malloc((size_t)n+1);
+	if(!big) return EOF;
+	va_start(va,format);
+	vsnprintf(big,(size_t)n+1,format,va);
+	va_end(va);
+	rval = EGioWrite(file,big);
+	free(big);
+	return rval;
 }
 /* ========================================================================= */
 EGioFile_t* EGioOpenFILE(FILE*ifile)
